@@ -329,6 +329,7 @@ func runC01(c *Ctx) {
 		r.Check("R01.5", FuncName(fs.Fn), "store Cell.raw", fs.St.Pos(), fs.Fresh, "the stored item is replaced after construction (only a constructor's fresh cell may set it)")
 	}
 	r.Floor("R01.5", "writers of Cell.raw", nraw, 1)
+	c01ItemsReachCells(c, "R01.5")
 	// the constructor wraps whatever it is given: every cell it returns is one it built, holding the argument itself
 	if nc := c.Func("", "NewCell"); nc != nil && len(nc.Params) == 1 {
 		for i, ret := range returnsOf(nc) {
@@ -843,4 +844,45 @@ func derivesFromParam(v ssa.Value, fn *ssa.Function, depth int) bool {
 		}
 	}
 	return false
+}
+
+// c01ItemsReachCells: the builders that take a list of items (AddRowItems, AddHeaders) turn item i into cell i
+// by NewCell(items[i]) for every i, in order, with nothing done to the item on the way.
+func c01ItemsReachCells(c *Ctx, rule string) {
+	r := c.R
+	nc := c.Func("", "NewCell")
+	add := c.Method(c.Named("", "Row"), true, "Add")
+	if nc == nil || add == nil {
+		return
+	}
+	n := 0
+	for _, fn := range c.ModFuncs("") {
+		if !fn.Signature.Variadic() || fn.Object() == nil || !fn.Object().Exported() {
+			continue
+		}
+		items := fn.Params[len(fn.Params)-1]
+		if sl, ok := items.Type().Underlying().(*types.Slice); !ok || !types.Identical(sl.Elem(), types.NewInterfaceType(nil, nil)) {
+			continue
+		}
+		calls := 0
+		eachInstr(fn, func(in ssa.Instruction) {
+			call, ok := in.(*ssa.Call)
+			if !ok || call.Call.StaticCallee() != nc {
+				return
+			}
+			calls++
+			n++
+			sl, idx := sectionOfAny(call.Call.Args[0])
+			okItem := sl == ssa.Value(items) && isFullRangeIndex(c, fn, idx, sl)
+			r.Check(rule, FuncName(fn), fmt.Sprintf("cell #%d is NewCell(items[i]) for every i, the item as given", calls), in.Pos(), okItem, "the item is altered, replaced or skipped before it is stored: "+call.Call.Args[0].String())
+			added := false
+			for _, rr := range referrersOf(call) {
+				if staticCallee(rr) == add && !condInsideLoop(rr.Block()) && rr.Block() == in.Block() {
+					added = true
+				}
+			}
+			r.Check(rule, FuncName(fn), fmt.Sprintf("cell #%d is added to the row being built, unconditionally", calls), in.Pos(), added, "")
+		})
+	}
+	r.Floor(rule, "item-to-cell conversions in the variadic builders", n, 1)
 }
